@@ -3,6 +3,7 @@
 # verdict layout of step_verdict (coq/Monitors.v)
 NET, COMMIT, MEM, PROP, RES, STATE, HINT, FIRST = 1, 2, 3, 4, 5, 6, 7, 8
 M_C02, M_C03, M_C03G, M_C04, M_C05, M_C08, M_C09, M_C10, M_C15, M_C19, M_C06 = 9, 10, 11, 12, 13, 14, 15, 16, 17, 18, 19
+M_C19C, M_C19T = 20, 21     # completeness of QC / TC assembly (MonitorsC19.v); entry 22 = number of steps at which they demanded something
 
 STEP_RULE = ('step mode: a real Core (+Synchronizer, MempoolDriver/PayloadWaiter, Proposer, Aggregator, RocksDB store) driven one dispatch at a time; '
              'scripted corpus first (the C02 witnesses), then seeded cases: block trees with TC-justified gaps, forks, orphaned tips, TCs reporting rounds above '
@@ -18,10 +19,11 @@ def step_run(agree, monitors, quick=160, thorough=3000):
         mons = [m for m in monitors if case.get('admissible', True) or m != M_C02]
         return (agree, mons)
     return {'name': 'step', 'bin': 'step', 'mode': 'run', 'emit': 'step', 'quick': quick, 'thorough': thorough,
-            'agree': agree, 'monitors': monitors, 'layout': layout, 'timeout': 2400, 'coq_timeout': 1800}
+            'agree': agree, 'monitors': monitors, 'layout': layout, 'timeout': 2400, 'coq_timeout': 1800,
+            'counters': {'steps at which the completeness monitors of C19 demanded a certificate (quorum of distinct verified votes/timeouts reached)': 22}}
 
 
-NODE_VO = ['Node.vo', 'Corr.vo', 'Monitors.vo', 'CorrMulti.vo', 'LeaderDefs.vo', 'QuorumDefs.vo', 'CorrComp.vo', 'CorrAgg.vo']
+NODE_VO = ['Node.vo', 'Corr.vo', 'Monitors.vo', 'MonitorsC19.vo', 'CorrMulti.vo', 'LeaderDefs.vo', 'QuorumDefs.vo', 'CorrComp.vo', 'CorrAgg.vo']
 STEP_ASSUME = ['symbolic hashing: SHA-512/256 collision-free on the modelled pre-images and never all-zero (licensed by the C20 pre-image theorems)',
                'ideal signatures (EUF-CMA, strict verification) for Ed25519',
                'every task is a sequential process fed by FIFO channels; tokio/mpsc/RocksDB behave as documented',
@@ -111,7 +113,7 @@ PROPS = {
     'C19': {
         'vo': NODE_VO,
         'sites': ['g_quorum_consensus', 'g_qcm_threshold', 'g_qcm_reset', 'g_tcm_threshold', 'g_tcm_reset', 'g_agg_keep_votes', 'g_agg_keep_timeouts', 'g_qc_weight', 'g_tc_weight', 'g_qc_entry_stake', 'g_tc_entry_stake', 'g_vote_stale', 'g_timeout_stale'],
-        'corr': [step_run([NET, PROP, STATE], [M_C19]), {'name': 'aggregator', 'bin': 'comp', 'mode': 'aggregator', 'quick': 150, 'thorough': 3000, 'agree': [1], 'monitors': [2, 3]}],
+        'corr': [step_run([NET, PROP, STATE], [M_C19, M_C19C, M_C19T]), {'name': 'aggregator', 'bin': 'comp', 'mode': 'aggregator', 'quick': 150, 'thorough': 3000, 'agree': [1], 'monitors': [2, 3]}],
         'rule': STEP_RULE, 'assumptions': STEP_ASSUME,
     },
     'C11': {
@@ -126,10 +128,13 @@ PROPS = {
                         'tokio timer and mpsc semantics'],
     },
     'C12': {
-        'vo': ['QuorumWaiterDefs.vo', 'QuorumDefs.vo', 'BatchMakerDefs.vo', 'CorrComp.vo', 'CorrQW.vo', 'CorrBatch.vo'],
+        'vo': ['QuorumWaiterDefs.vo', 'QuorumDefs.vo', 'BatchMakerDefs.vo', 'CorrComp.vo', 'CorrQW.vo', 'CorrBatch.vo', 'ReliableDefs.vo', 'CorrReliable.vo'],
         'sites': ['g_qw_threshold', 'g_quorum_mempool'],
         'corr': [{'name': 'quorumwaiter', 'bin': 'comp', 'mode': 'quorumwaiter', 'quick': 150, 'thorough': 3000, 'agree': [1], 'monitors': [2]},
-                 {'name': 'batchmaker', 'bin': 'comp', 'mode': 'batchmaker', 'quick': 60, 'thorough': 1000, 'agree': [1], 'monitors': [10]}],
+                 {'name': 'batchmaker', 'bin': 'comp', 'mode': 'batchmaker', 'quick': 60, 'thorough': 1000, 'agree': [1], 'monitors': [10]},
+                 # the handler contract C12 rests on: the real ReliableSender resolves a handler only with the reply to its own frame and never drops one
+                 # whose message it still owes (QuorumWaiter counts a handler that ends - resolved OR dropped - as an acknowledgement)
+                 {'name': 'reliable', 'bin': 'sock', 'mode': 'reliable', 'emit': 'reliable', 'realtime': True, 'quick': 20, 'thorough': 200, 'agree': [3], 'monitors': [4, 8, 9], 'timeout': 300}],
         'rule': 'real QuorumWaiter task: committees of 1..8 (equal and weighted incl. zero stakes), 1..3 queued batches, acknowledgement orders = random permutations of the other members plus '
                 'sometimes an authority unknown to the committee, handlers handed over in a different random order; non-trivial = committee of more than one; distinct = distinct (stakes, orders)',
         'assumptions': ['an acknowledgement means the peer stored the batch (the peer\'s honesty, not this node\'s code)', 'FuturesUnordered yields handlers in completion order'],
@@ -155,7 +160,7 @@ PROPS = {
         'vo': ['Codec.vo', 'Base64Defs.vo', 'WireDefs.vo', 'CorrComp.vo', 'CorrCodec.vo'],
         'sites': ['g_pk_decode_exact', 'g_sk_decode_exact'],
         'corr': [{'name': 'keys', 'bin': 'codec', 'mode': 'keys', 'emit': 'codec_keys', 'quick': 150, 'thorough': 3000, 'agree': [1, 2, 3, 4], 'monitors': [5]},
-                 {'name': 'sigs', 'bin': 'comp', 'mode': 'sigs', 'quick': 80, 'thorough': 1500, 'agree': [], 'monitors': [1, 2, 3, 4, 5]}],
+                 {'name': 'sigs', 'bin': 'comp', 'mode': 'sigs', 'quick': 80, 'thorough': 1500, 'agree': [], 'monitors': [1, 2, 3, 4, 5, 6]}],
         'rule': 'keys: random byte strings of every length mod 3, public and secret keys: real encode_base64/decode_base64 and base64 0.13 vs the Gallina model; '
                 'sigs (differential only, no model of Ed25519): fresh keys, batches of 1..5; honest signatures verify alone and batched; 24 single-bit flips of signature (incl. the malformed top bits), digest, key rejected; '
                 '16 batches per case with 0, 1 or all members corrupted in 6 ways: batch accepts exactly when every member verifies individually; the signature service signs what Signature::new signs',
@@ -195,7 +200,7 @@ PROPS['C06'] = {
     'vo': NODE_VO + ['LivenessDefs.vo'],
     'sites': ['g_advance_guard', 'g_advance_next', 'g_update_high_qc', 'g_timeout_stale', 'g_vote_stale', 'g_tcm_threshold', 'g_qcm_threshold', 'g_agg_keep_votes', 'g_agg_keep_timeouts', 'g_safety_rule_1', 'g_safety_rule_2', 'g_can_extend', 'g_can_extend_hq', 'g_two_chain', 'g_quorum_consensus'],
     'corr': [{'name': 'runloop', 'bin': 'runloop', 'mode': 'smoke', 'emit': 'runloop', 'quick': 24, 'thorough': 200, 'agree': [], 'monitors': list(range(1, 19)), 'timeout': 600},
-             step_run([NET, PROP, STATE, RES], [M_C10, M_C19, M_C06], quick=160)],
+             step_run([NET, PROP, STATE, RES], [M_C10, M_C19, M_C06, M_C19C, M_C19T], quick=160)],
     'rule': 'run-loop smoke: the REAL Core::spawn (select! loop and Timer) on a paused clock, committee of 4, random node and timeout delay, four scenarios per case (idle timeouts re-armed; proposal then timer reset on round change; '
             'TC assembled from three timeouts; invalid messages do not stop the loop); plus ' + STEP_RULE,
     'assumptions': STEP_ASSUME + ['PARTIAL: only the enabling side of liveness is a theorem; nothing involving real time, message-delay bounds versus the timeout, scheduler fairness or loss on best-effort links is proved (the model has no clock)'],
@@ -236,7 +241,7 @@ for _p in ('C01', 'C02', 'C03', 'C04', 'C05', 'C08', 'C09', 'C10', 'C15', 'C19')
 for _p in ('C02', 'C03', 'C04', 'C05', 'C08', 'C09', 'C10', 'C15', 'C19'):
     PROPS[_p]['extra_props'] = ['MonSound']     # each monitor evaluated on real traces is proved true on every run of the model
 PROPS['C11']['anchors'] = ['mempool/src/batch_maker.rs', 'mempool/src/processor.rs']
-PROPS['C12']['anchors'] = ['mempool/src/quorum_waiter.rs', 'mempool/src/config.rs']
+PROPS['C12']['anchors'] = ['mempool/src/quorum_waiter.rs', 'mempool/src/config.rs', 'network/src/reliable_sender.rs']
 PROPS['C14']['anchors'] = ['network/src/reliable_sender.rs', 'network/src/receiver.rs']
 PROPS['C15']['anchors'] = CORE_ANCHORS + ['consensus/src/helper.rs', 'consensus/src/consensus.rs', 'mempool/src/', 'network/src/receiver.rs', 'crypto/src/lib.rs']
 PROPS['C16']['anchors'] = ['store/src/lib.rs']
